@@ -136,6 +136,11 @@ func (handler) HandleOperation(ctx context.Context, req kmip.OperationPayload) (
 		}
 	}
 	ph := kmipserver.IdPlaceholder(ctx)
+	// resolving the item's identifier is a read: it returns the item's own identifier, or the placeholder when the item omits it,
+	// and leaves the placeholder as it is
+	if got, err := kmipserver.GetIdOrPlaceholder(ctx, pl.UniqueIdentifier); pl.UniqueIdentifier != "" && (err != nil || got != pl.UniqueIdentifier) {
+		panic(fmt.Sprintf("GetIdOrPlaceholder(%q) = %q, %v", pl.UniqueIdentifier, got, err))
+	}
 	sc.mu.Lock()
 	sc.called = append(sc.called, i)
 	sc.reads = append(sc.reads, [2]any{i, phToken(ph)})
